@@ -103,14 +103,17 @@ pub fn record(seed: u64, n: usize, out_path: &str, voice: &str) {
         let mut lines: Vec<String> = (0..k).map(|_| corpus.lines[rng.below(corpus.lines.len())].clone()).collect();
         let which = rng.below(lines.len());
         let mut chars: Vec<char> = lines[which].chars().collect();
-        let what = rng.below(11);
+        // every third run is a combined corruption (kinds 9 / 10) whose offset is enumerated, not drawn
+        let combo = *it % 3 == 0;
+        let what = if combo { 9 + (*it / 3) % 2 } else { rng.below(9) };
         match what {
             // combined corruptions: one time stamp deleted (two tokens left: "missing label") or both kept, and a multi-byte
-            // character put at a chosen byte offset of the line (error messages quote the line: offsets around 16, 20, 32, 64, 80, 128)
+            // character put at a chosen byte offset of the line (error messages quote the line: every offset of a list from 8 to 256, one to three bytes before it)
             9 | 10 => {
                 let s: String = chars.iter().collect();
                 let mut line = if what == 9 { format!("{} {}", 1000 * rng.below(100000), s) } else { format!("0 {} {}", 1000 * rng.below(100000), s) };
-                let target = *rng.pick(&[16usize, 20, 32, 64, 80, 128]) - rng.below(4);
+                const TARGETS: [usize; 20] = [8, 12, 16, 20, 24, 32, 40, 48, 50, 56, 64, 72, 80, 96, 100, 120, 128, 200, 255, 256];
+                let target = TARGETS[(*it / 6) % TARGETS.len()] - (1 + (*it / (6 * TARGETS.len())) % 3);
                 let mut at = target.min(line.len());
                 while !line.is_char_boundary(at) {
                     at -= 1;
